@@ -13,6 +13,7 @@
 //!
 //! Modes: `lv-harness run` reads program lines from stdin.
 
+mod native;
 mod extras;
 mod interp;
 mod prog;
@@ -351,6 +352,11 @@ fn main() {
                     }
                 }
             }
+        }
+        "native" => {
+            // fixed scenarios written directly against loom's API (what the DSL cannot express): each prints
+            // `NATIVE <name> <how loom::model ended>`; the caller runs one scenario per process and looks at the exit
+            native::run(args.get(2).map(|s| s.as_str()).unwrap_or(""));
         }
         "run" => {
             let stdin = std::io::stdin();
